@@ -294,7 +294,7 @@ func runCase(c Case) []ev.Violation {
 			}
 		}
 		if (o == "rst0" && tried) || (o == "refuse" && !anyOK && allAsserted) {
-			if st[names[i]].IsRoutable() {
+			if routable(st[names[i]]) {
 				bad("failed-endpoint-still-routable/"+o, "candidate %d (%s) failed at connection level but its status is %q afterwards: %s", i, o, st[names[i]], desc)
 			}
 		}
@@ -303,7 +303,7 @@ func runCase(c Case) []ev.Violation {
 		// five follow-up requests: endpoints now marked non-routable get nothing
 		marked := map[int]bool{}
 		for i := range c.Outcomes {
-			if !st[names[i]].IsRoutable() {
+			if !routable(st[names[i]]) {
 				marked[i] = true
 			}
 		}
@@ -340,6 +340,11 @@ func runCase(c Case) []ev.Violation {
 		rec.Sample(map[string]any{"case": c, "status": resp.Status, "endpoint": resp.Get("X-Olla-Endpoint")})
 	}
 	return vs
+}
+
+// routable is the harness's own statement of which statuses may receive traffic.
+func routable(s domain.EndpointStatus) bool {
+	return s == domain.StatusHealthy || s == domain.StatusBusy || s == domain.StatusWarming
 }
 
 func trunc(b []byte, n int) []byte {
